@@ -82,7 +82,7 @@ func TestC01(t *testing.T) {
 	}
 
 	// (i) one step axis::test from every node of the document
-	runProp(t, "step", 6000, 40000, func(t *rapid.T) {
+	runProp(t, "step", 2500, 40000, func(t *rapid.T) {
 		ev := xmodel.Gen(t, docCfg())
 		p, err := prepareDoc(ev)
 		if err != nil {
